@@ -271,7 +271,10 @@ def unreduced_cross_entropy_loss(targets: jnp.ndarray,
     # If targets is sparse, convert to one hot representation.
     num_classes = preds.shape[-1]
     targets = jax.nn.one_hot(targets, num_classes)
-  return -jnp.sum(targets * log_preds, axis=-1)
+  # log_preds is -inf for a class whose logit is -inf or lies more than the
+  # float32 range below the maximum; such a class contributes 0 (not
+  # 0 * -inf = NaN) unless it is a target.
+  return -jnp.sum(jnp.where(targets != 0, targets * log_preds, 0.), axis=-1)
 
 
 @dataclasses.dataclass
